@@ -50,6 +50,8 @@ def configs(inner=None):
     c = {
         "ConstraintKMeans": (lambda: mm.ConstraintKMeans(3, strategy="distance", random_state=0, max_iter=10), "none", False, "predict"),
         "ConstraintKMeans-nok0": (lambda: mm.ConstraintKMeans(3, strategy="distance", random_state=0, max_iter=10, kmeans0=False), "none", False, "predict"),
+        # strategy 'weights' learns per-cluster weights (weights_) that transform / score use
+        "ConstraintKMeans-weights": (lambda: mm.ConstraintKMeans(3, strategy="weights", random_state=0, max_iter=10), "none", False, "transform"),
         "KMeansL1L2-L1": (lambda: mm.KMeansL1L2(3, norm="L1", random_state=0, n_init=2), "none", False, "predict"),
         "KMeansL1L2-L2": (lambda: mm.KMeansL1L2(3, norm="L2", random_state=0, n_init=2), "none", False, "predict"),
         # explicit initial centres: n_init is then ignored by the L1 fit (it must not be overwritten)
